@@ -408,6 +408,35 @@ let idle_period args =
       string_of_int (int_of_n (if k = "tcp" then x_tcp_period o else x_udp_period o))
   | _ -> "BAD-ARGS"
 
+(* connector tables: entries `,`-separated, <name>:P or <name>:L<m>.<m>... (names are numbers; L alone = no members) *)
+let parse_table (s : String.t) =
+  if s = "-" then [] else
+  List.map (fun e ->
+    match String.split_on_char ':' e with
+    | [ n; k ] ->
+        let name = n_of_int (int_of_string n) in
+        if k = "P" then (name, KPlain)
+        else
+          let ms = String.sub k 1 (String.length k - 1) in
+          (name, KLb (if ms = "" then [] else List.map (fun m -> n_of_int (int_of_string m)) (String.split_on_char '.' ms)))
+    | _ -> failwith "table") (String.split_on_char ',' s)
+
+let cfg_table args =
+  match args with
+  | [ t ] -> if x_table_ok (parse_table t) then "OK" else "REJECT"
+  | _ -> "BAD-ARGS"
+
+let cfg_resolve args =
+  match args with
+  | [ t; n; cs ] ->
+      let rec nat_of_i i = if i <= 0 then O else S (nat_of_i (i - 1)) in
+      let choices = if cs = "-" then [] else List.map (fun c -> nat_of_i (int_of_string c)) (String.split_on_char '.' cs) in
+      (match x_resolve (parse_table t) (n_of_int (int_of_string n)) choices with
+       | Leaf l -> "LEAF " ^ string_of_int (int_of_n l)
+       | Unknown -> "UNKNOWN"
+       | OutOfFuel -> "OUT-OF-FUEL")
+  | _ -> "BAD-ARGS"
+
 (* ---- milu evaluator ------------------------------------------------------------------ *)
 
 exception Opaque
@@ -637,6 +666,8 @@ let run_line ovf line =
         | "reload_seq" -> reload_seq args
         | "milu_parse" -> milu_parse args
         | "milu_rt" -> milu_rt args
+        | "cfg_table" -> cfg_table args
+        | "cfg_resolve" -> cfg_resolve args
         | "idle_check" -> idle_check args
         | "idle_period" -> idle_period args
         | "milu_eval" -> milu_eval args
